@@ -20,7 +20,9 @@ EXC = {'OSError': OSError, 'KeyError': KeyError, 'ValueError': ValueError, 'Runt
        'InjectedFault': InjectedFault}
 EXC_NAMES = ['OSError', 'KeyError', 'ValueError', 'RuntimeError']
 INIT4 = [(a, b) for a in (True, False) for b in (True, False)]       # RUN2D set?, RUN1D set?
-WS_NATURAL = ['calib_unset', 'resolve_unset', 'flist_missing', 'flist_truncated', 'rescore_exists', 'score_raises']
+INIT9 = [(a, b) for a in (True, False, 'empty') for b in (True, False, 'empty')]   # ... or set to the empty string
+WS_NATURAL = ['calib_unset', 'resolve_unset', 'flist_missing', 'flist_truncated', 'rescore_exists', 'score_raises',
+              'calib_empty', 'calib_empty+resolve_unset', 'calib_empty+flist_missing', 'calib_empty+score_raises']
 TI_NATURAL = ['par_missing', 'kw_missing_object', 'kw_missing_run1d', 'kw_missing_minuse', 'kw_nonnumeric_niter',
               'kw_nonnumeric_wavemin', 'hmf_kw_missing_epsilon', 'hmf_kw_bad_nonnegative', 'spplate_missing', 'fibre_absent',
               'unknown_method', 'dump_unwritable', 'no_eigenobj_table', 'redux_unset']
@@ -123,7 +125,7 @@ class C20(Check):
             'ws_line': (NL_WS // 2) * 2 if q else NL_WS * 2,
             'ws_call': NC_WS * 2,
             'ws_natural': len(WS_NATURAL) * 2,
-            'ti_clean': 8,
+            'ti_clean': 18,
             'ti_line': (NL_TI // 10) * 2 if q else NL_TI * 8,
             'ti_call': (NC_TI // 4) * 2 if q else NC_TI * 8,
             'ti_natural': len(TI_NATURAL) * (2 if q else 4),
@@ -149,7 +151,7 @@ class C20(Check):
             return {'method': ['pca', 'hmf'][j % 2], 'init': list(INIT4[(j // 2) % 4] if not q else INIT4[(j * 3) % 4])}
         if cls == 'ti_clean':
             c = cfg(i)
-            c['init'] = list(INIT4[(i // 2) % 4])
+            c['init'] = list(INIT9[(i // 2) % 9])
             return {'entry': 'ti', 'cfg': c, 'fault': {'mode': 'none'}}
         if cls == 'ti_line':
             k = (i // ncfg) * (10 if q else 1) + ((i % ncfg) * 5 if q else 0)
@@ -159,7 +161,7 @@ class C20(Check):
             return {'entry': 'ti', 'cfg': cfg(i % ncfg), 'fault': {'mode': 'call', 'index': k, 'exc': EXC_NAMES[(k + 2) % 4]}}
         nn = len(TI_NATURAL)
         c = cfg(i // nn)
-        c['init'] = list(INIT4[(i // nn) % 4])
+        c['init'] = list(INIT9[(i // nn + i) % 9])
         return {'entry': 'ti', 'cfg': c, 'fault': {'mode': 'natural', 'natural': TI_NATURAL[i % nn]}}
 
     # ------------------------------------------------------------------ fixtures
@@ -323,6 +325,10 @@ class C20(Check):
                        'recorded path longer than the enumeration bounds (%d lines, %d calls)' % (rec['nline'], rec['ncall']))
             func = factory()
             d = os.environ['PHOTO_RESOLVE']
+            if nat and nat.startswith('calib_empty'):
+                # set but empty on entry: a value like any other, to be found again on return
+                os.environ['PHOTO_CALIB'] = ''
+                nat = nat[len('calib_empty+'):]
             if nat == 'calib_unset':
                 del os.environ['PHOTO_CALIB']
             elif nat == 'resolve_unset':
@@ -355,7 +361,8 @@ class C20(Check):
         wd = os.path.join(self.workdir, 'ti%d' % self._n)
         os.makedirs(wd)
         env = {'BOSS_SPECTRO_REDUX': tree['topdir'], 'SPECTRO_MATCH': tree['match'], 'PHOTO_RESOLVE': tree['resolve'],
-               'RUN2D': 'orig2d' if cfg['init'][0] else None, 'RUN1D': 'orig1d' if cfg['init'][1] else None}
+               'RUN2D': {True: 'orig2d', False: None, 'empty': ''}[cfg['init'][0]],
+               'RUN1D': {True: 'orig1d', False: None, 'empty': ''}[cfg['init'][1]]}
 
         def factory(variant=None, subdir='clean'):
             w = os.path.join(wd, subdir)
